@@ -391,7 +391,9 @@ class ModifiedPrior(AbstractPriorModel, ABC, ArithmeticMixin, Compound):
 
     @property
     def cls(self):
-        return self.prior.cls
+        # the operand of -x / abs(x) may be a prior, which has no `cls`: like any other
+        # arithmetic prior the result is then a float
+        return getattr(self.prior, "cls", float)
 
     @property
     def prior(self):
